@@ -19,7 +19,10 @@ CONSTANTS
   DevWriteLock = FALSE
   DevRouteFirst = FALSE
   DevCleanupFirst = FALSE
-  DevLegRegistered = FALSE
+  RegLegs = {}
+  DevIdleSweep = FALSE
+  DevFwdNoEof = FALSE
+  SrcKinds = @@SK@@
   DevBufio = FALSE
   AttachKinds = @@AK@@
   HoldOn = @@HOLD@@
